@@ -6,6 +6,16 @@ props = [json.loads(l) for l in open(os.path.join(V, "properties.jsonl"))]
 ids = [p["id"] for p in props]
 
 CLAIMS = {
+ "C01": dict(
+   technique="Lean 4 theorem (diff-parser exactness for all contents) over a hand-written model + in-process correspondence + end-to-end ghost-provenance oracle on the built binary",
+   text="Machine-checked proof that the commit-time `git diff -U0` parser returns exactly the lines a commit adds for every rendered diff (any content, including lines that look like diff headers; hunk-header parsing for all headings/counts), tied to the Rust parser by differential testing; the pipeline as a whole (checkpoints → working log → split → note → blame) is checked end to end against a ghost-provenance oracle on generated histories (files with unusual names, CRLF, no final newline, diff-syntax-like lines; 1-3 sessions + human; insert/delete/replace/intra-line/re-indent; rewrite-all-AI-lines) run on the binary built from /repo.",
+   note="Proof covers the diff-parsing mechanism (Model/DiffParse) and, via C04/C16/C17, split, tracker and note format; the composition over whole histories is validated end to end, not proved (Sys-level theorem not built). Trusted: Lean kernel; harness and sysrun generators; real git as reference for added lines; agents follow the documented protocol (pre-edit human checkpoint naming the file, post-edit AI checkpoint). Known finding: whitespace-only re-touch of a line committed earlier as AI.",
+   ref="DESIGN.md §8 C01"),
+ "C04": dict(
+   technique="Lean 4 theorems (split partition, coordinate translation, output well-formedness) over a hand-written model of the commit-time split + end-to-end model-vs-binary correspondence + ghost-provenance oracle",
+   text="Machine-checked proofs over the Split3 model: every attributed working-tree line lands in exactly one of note / pending / dropped; the translated commit coordinate is the true line number whenever the unstaged hunks are pure insertions (with a proved negation witness for unstaged deletions); note and pending lists are strictly increasing, never human, inside the committed resp. unstaged hunks. The model is tied to the binary end to end: from the observed working log and the hunks real git reports it predicts the note lines and the new INITIAL of every partial commit. Generated histories split AI/human changes across successive commits by file and by hunk and are checked against the ghost oracle.",
+   note="Trusted: Lean kernel; sysrun ghost tracking; real git for hunks. Carried-once over whole histories is validated end to end, not proved. Known findings: unstaged non-insertion change above an AI line (coordinate bug), pending lines edited by a person before the next checkpoint (INITIAL is line-number only), whitespace-only re-touch of committed AI lines.",
+   ref="DESIGN.md §8 C04"),
  "C17": dict(
    technique="Lean 4 theorems (round trip, grammar, parse totality) over a hand-written model of the note format + in-process model-vs-code correspondence",
    text="Machine-checked proof over the NoteFormat model that deserialize(serialize log) returns the same files/hashes/range multisets/metadata text for every log without a newline in a path, that the output is in the standard's grammar, that the parser is total and rejects divider-less text; the model is tied to the Rust code by differential testing of serialize/deserialize/format/parse on generated and corpus inputs on every run.",
